@@ -256,6 +256,23 @@ func (a *E3) effect(fn *ssa.Function, ins ssa.Instruction, kind string, target, 
 	a.changed = true
 }
 
+// paramBitOf gives the summary bit of a top-level function parameter (receiver = RECV).
+func (a *E3) paramBitOf(par *ssa.Parameter) O {
+	fn := par.Parent()
+	for i, q := range fn.Params {
+		if q == par {
+			if fn.Signature.Recv() != nil {
+				if i == 0 {
+					return oRECV
+				}
+				return paramBit(i)
+			}
+			return paramBit(i + 1)
+		}
+	}
+	return oUSER
+}
+
 func paramBit(i int) O {
 	switch i {
 	case 1:
@@ -371,6 +388,10 @@ func (a *E3) doCall(fn *ssa.Function, instr ssa.Instruction, c *ssa.CallCommon, 
 				for _, ar := range args {
 					if a.isSpine(ar.Type()) {
 						a.effect(fn, instr, "sort", a.get(ar)&oROOTS, 0)
+					} else if par, ok := a.cellOf(ar).(*ssa.Parameter); ok && par.Parent().Parent() == nil {
+						if _, isSl := par.Type().Underlying().(*types.Slice); isSl && !strings.HasPrefix(callee.Name(), "Search") && !strings.HasSuffix(callee.Name(), "AreSorted") && !strings.HasPrefix(callee.Name(), "IsSorted") && !strings.HasPrefix(callee.Name(), "Contains") && !strings.HasPrefix(callee.Name(), "Index") {
+							a.effect(fn, instr, "reorder-arg", a.paramBitOf(par), 0) // reorders a slice owned by the caller
+						}
 					}
 				}
 			}
@@ -479,15 +500,7 @@ func (a *E3) structField(addrX ssa.Value, idx int) *types.Var {
 func (a *E3) transfer(fn *ssa.Function, instr ssa.Instruction) {
 	switch x := instr.(type) {
 	case *ssa.Alloc:
-		el := x.Type().(*types.Pointer).Elem()
-		if n, ok := el.(*types.Named); ok && n.Obj().Pkg() == a.pkg.Pkg {
-			if _, isStruct := n.Underlying().(*types.Struct); isStruct {
-				a.set(x, oFRESH)
-			}
-		}
-		if arr, ok := el.Underlying().(*types.Array); ok && a.isFieldIface(arr.Elem()) {
-			a.set(x, oFRESH) // backing array of a composite literal []field{...}
-		}
+		a.set(x, oFRESH) // fresh local or heap memory (container structs, literal backing arrays, variadic packs, cells)
 	case *ssa.MakeSlice:
 		a.set(x, oFRESH)
 	case *ssa.MakeMap:
@@ -612,6 +625,11 @@ func (a *E3) transfer(fn *ssa.Function, instr ssa.Instruction) {
 				a.effect(fn, x, "store-elem", a.get(addr.X)&oROOTS, v)
 			} else {
 				a.addCell(a.cellOf(addr), v)
+				if par, ok := a.cellOf(addr).(*ssa.Parameter); ok && par.Parent().Parent() == nil {
+					if _, isSl := par.Type().Underlying().(*types.Slice); isSl {
+						a.effect(fn, x, "store-arg-elem", a.paramBitOf(par), v) // writes into a slice owned by the caller
+					}
+				}
 			}
 		case *ssa.Global:
 			a.effect(fn, x, "store-global", oUSER, v)
